@@ -21,6 +21,7 @@ type ReadOnlyFS struct {
 	sourceFS  hackpadfs.FS
 	cacheFS   writableFS
 	cacheInfo sync.Map
+	cached    sync.Map // names whose copy into cacheFS completed
 
 	pathlock pathlock.Mutex
 	options  ReadOnlyOptions
@@ -57,13 +58,15 @@ func (fs *ReadOnlyFS) Open(name string) (hackpadfs.File, error) {
 	fs.pathlock.Lock(name)
 	defer fs.pathlock.Unlock(name)
 	{
-		// if file is in cache, return it. continue otherwise
-		f, err := fs.cacheFS.Open(name)
-		if err == nil {
-			return f, nil
-		}
-		if !errors.Is(err, hackpadfs.ErrNotExist) {
-			return nil, err
+		// if file is completely copied into the cache, return it. continue otherwise
+		if _, complete := fs.cached.Load(name); complete {
+			f, err := fs.cacheFS.Open(name)
+			if err == nil {
+				return f, nil
+			}
+			if !errors.Is(err, hackpadfs.ErrNotExist) {
+				return nil, err
+			}
 		}
 	}
 
@@ -80,6 +83,7 @@ func (fs *ReadOnlyFS) Open(name string) (hackpadfs.File, error) {
 		_ = f.Close()
 		return nil, err
 	}
+	fs.cached.Store(name, struct{}{})
 	if _, seekErr := hackpadfs.SeekFile(f, 0, io.SeekStart); seekErr != nil {
 		// attempt to seek to first byte. if unsuccessful, re-open file from the cache
 		_ = f.Close()
@@ -97,14 +101,17 @@ func (fs *ReadOnlyFS) copyFile(name string, f hackpadfs.File, info hackpadfs.Fil
 	if err != nil {
 		return err
 	}
-	defer func() { _ = destFile.Close() }()
-
 	destFileWriter, ok := destFile.(io.Writer)
 	if !ok {
+		_ = destFile.Close()
 		return &hackpadfs.PathError{Op: "open", Path: name, Err: hackpadfs.ErrPermission}
 	}
 	buf := make([]byte, 512)
 	_, err = io.CopyBuffer(destFileWriter, f, buf)
+	closeErr := destFile.Close()
+	if err == nil {
+		err = closeErr
+	}
 	return err
 }
 
